@@ -70,7 +70,7 @@ func scenarios(thorough bool) []Scenario {
 			Scenario{Name: "1caller-dup3-b4", Callers: 1, Replies: []int{3}, Bound: 4, Thorough: true},
 		)
 		for i := range s {
-			s[i].MaxExec = 400000
+			s[i].MaxExec = 96000
 		}
 	} else {
 		for i := range s {
